@@ -16,6 +16,28 @@ CLAIMED = {
         'arguments they are given. Behaviour of the DP itself is outside the claim.',
    technique='static analysis: abstract interpretation over rustc MIR (symbolic save/restore, must-reset dataflow with loop peeling)',
    ref='DESIGN.md section 2, C01'),
+
+ 'C02': dict(level='proof',
+   text='Static proof over all MIR paths of the structural clauses of C02: (SR-2) the four banded mode wrappers restore every '
+        'scoring field and pass the documented mode constants; no custom* entry point writes scoring; (TS-1) the private '
+        'compute_alignment is reached only from entry points in which a store self.band = Band::create*(..) dominates the '
+        'call, and every Band::create* returns a band built by Band::new(len x, len y) in that call (no stale band); (RI-2) '
+        'first mention of every scratch buffer is a reset; (GD-1) the over-budget edge of `num_cells > MAX_CELLS` returns the '
+        'MIN_SCORE/empty sentinel and all DP state is touched only behind the within-budget edge. Soundness of in-band DP, '
+        'equality with the unbanded optimum and termination of Band::add_kmer are NOT decided.',
+   note='Trusted: rustc MIR, extractor, SR/RI/GD engines; Vec::clear semantics; foreign callees write only through &mut arguments.',
+   technique='static analysis: abstract interpretation + dominance/typestate rules over rustc MIR',
+   ref='DESIGN.md section 2, C02'),
+ 'C16': dict(level='proof',
+   text='Static proof of the graph-monotonicity and mode clauses of C16: (EF-5) every call in alignment::poa that receives '
+        '&mut Graph is add_node, add_edge with a positive constant weight, or edge_weight_mut used only as `*w += const`; the '
+        'graph field is never reassigned in a &mut self method, hence no node label or edge is removed or decreased; (TS-7) per '
+        'alignment operation at most one add_node, labelled seq[i], followed on every path by i += 1; (SR-3) the three mode '
+        'wrappers restore the clip penalties and pass the documented constants to Poa::custom (&self). Score equality with '
+        'Needleman-Wunsch, acyclicity and consensus validity are NOT decided.',
+   note='Trusted: rustc MIR, extractor, engines; petgraph API contracts for add_node/add_edge/edge_weight_mut (they do not remove or relabel).',
+   technique='static analysis: who-may-call/effect rule on &mut Graph receivers, path counting on the loop CFG, symbolic save/restore',
+   ref='DESIGN.md section 2, C16'),
 }
 
 NOT_BUILT = 'rule not built yet (see DESIGN.md section 6)'
